@@ -204,3 +204,45 @@ impl std::ops::Deref for ListenerShim {
         &self.inner
     }
 }
+
+// ---- injectable SIGHUP (whole-loop simulation) ----
+
+thread_local! {
+    static SIGHUP: RefCell<Option<std::sync::Arc<tokio::sync::Notify>>> = const { RefCell::new(None) };
+}
+
+/// Install (or with `None` remove) the SIGHUP source for this thread. A permit
+/// stored with `notify_one()` is consumed by the loop as one SIGHUP.
+pub fn set_sighup_source(n: Option<std::sync::Arc<tokio::sync::Notify>>) {
+    SIGHUP.with(|s| *s.borrow_mut() = n);
+}
+
+/// Shadowing wrapper for the SIGHUP stream inside `run_sender_with_config`:
+/// with a source installed on the creating thread it also fires when the
+/// simulator says so; without one it is the real signal stream.
+#[cfg(unix)]
+pub struct SighupShim {
+    inner: tokio::signal::unix::Signal,
+    source: Option<std::sync::Arc<tokio::sync::Notify>>,
+}
+
+#[cfg(unix)]
+impl SighupShim {
+    pub fn new(inner: tokio::signal::unix::Signal) -> Self {
+        let source = SIGHUP.with(|s| s.borrow().clone());
+        Self { inner, source }
+    }
+
+    pub async fn recv(&mut self) -> Option<()> {
+        match &self.source {
+            Some(n) => {
+                tokio::select! {
+                    biased;
+                    _ = n.notified() => Some(()),
+                    r = self.inner.recv() => r,
+                }
+            }
+            None => self.inner.recv().await,
+        }
+    }
+}
